@@ -50,6 +50,8 @@ SHAPES = [
     # the same field name, result type and argument NAMES on two types, with different argument types (User.posts / Post.posts)
     ("user_posts", 'Query.me().fields(UserFields.posts(after="x", since="s").fields(PostFields.title))', {"after": ("String", "x"), "since": ("Stamp", '"s"')}),
     ("post_posts", 'Query.node(id="7").on("Post", PostFields.posts(after="y", since="z").fields(PostFields.id))', {"id": ("ID!", "7"), "after": ("String!", "y"), "since": ("Stamp!", '"z"')}),
+    ("two_members_same_arg", 'Query.search(text="q").on("User", UserFields.posts(after="u", since="s").fields(PostFields.id)).on("Post", PostFields.posts(after="p", since="z").fields(PostFields.id))',
+     {"text": ("String!", "q"), "after": ("String", "u"), "since": ("Stamp", '"s"'), "after#2": ("String!", "p"), "since#2": ("Stamp!", '"z"')}),
     ("scalar_falsy", 'Query.window(start="", end="").fields(PostFields.id)', {"start": ("Stamp!", '""'), "end": ("Stamp", '""')}),
     ("scalar_subfield", 'Query.me().fields(UserFields.posts(since="s").fields(PostFields.title))', {"since": ("Stamp", '"s"')}),
     # a scalar configured with serialize=json.dumps: every argument of it travels as dumps(value), the first one and the later ones
